@@ -426,6 +426,7 @@ type c32Env struct {
 	srvH   http.Handler
 	srv    *httptest.Server
 	srvErr string
+	hung   bool
 }
 
 func c32NewEnv(t *testing.T) *c32Env {
@@ -586,7 +587,15 @@ func (e *c32Env) do(r *vkit.Run, c *c32Case) (res c32Result, ok bool) {
 		}
 		req = req.WithContext(pcontext.SetAuthorizer(req.Context(), auth))
 		rec := httptest.NewRecorder()
-		h.ServeHTTP(rec, req)
+		fin := make(chan struct{})
+		go func() { defer close(fin); h.ServeHTTP(rec, req) }()
+		select {
+		case <-fin:
+		case <-time.After(60 * time.Second): // watchdog only: a handler that never returns decides nothing
+			r.Inconclusive("handler did not return within 60s (in-process request)")
+			e.hung = true
+			return res, false
+		}
 		res.Status = rec.Code
 		res.RawBody = rec.Body.String()
 	case "server_content_length", "server_chunked_stream":
@@ -919,11 +928,18 @@ func TestC32(t *testing.T) {
 		c.No = caseNo
 		caseNo++
 		c.finish(rg)
+		if env.hung {
+			return // a previous request never returned; its goroutine still spins — stop driving
+		}
 		res, ok := env.do(r, c)
 		r.Case(c.key(), c.NGood+c.NBad > 0)
 		r.Event("enc_"+c.Encoding+"_"+c.Framing, 1)
 		r.Event("transport_"+c.Transport, 1)
 		r.Event("relation_"+c.Relation, 1)
+		if env.hung {
+			fmt.Printf("INCONCLUSIVE property=C32 the handler never returned for case %d (limit=%d size=%d %s/%s)\n", c.No, c.Limit, c.Size, c.Encoding, c.Framing)
+			t.Fatalf("INCONCLUSIVE: handler hung")
+		}
 		if !ok {
 			return
 		}
@@ -966,7 +982,7 @@ func TestC32(t *testing.T) {
 	}
 
 	// (2) random requests
-	n := r.N(4000, 30000)
+	n := r.N(4000, 100000)
 	for i := 0; i < n; i++ {
 		rg := r.Rand(i)
 		c := &c32Case{}
@@ -1057,18 +1073,19 @@ func TestC32(t *testing.T) {
 				if size < 0 {
 					continue
 				}
-				rg := r.SubRand("sweep", lim*3+d+1)
-				c := &c32Case{Limit: int64(lim), Transport: "recorder", WriterErr: "nil", OrgBy: "id", BucketBy: "name", Precision: "ns"}
-				c.body = c32SizedBody(rg, &ctr, "ns", size, rg.Chance(1, 5))
-				if len(c.body.Text) != size {
-					t.Fatalf("sized body generator: want %d got %d", size, len(c.body.Text))
+				for _, enc := range []string{"plain", "gzip"} {
+					rg := r.SubRand("sweep/"+enc, lim*3+d+1)
+					c := &c32Case{Limit: int64(lim), Transport: "recorder", WriterErr: "nil", OrgBy: "id", BucketBy: "name", Precision: "ns"}
+					c.body = c32SizedBody(rg, &ctr, "ns", size, rg.Chance(1, 5))
+					if len(c.body.Text) != size {
+						t.Fatalf("sized body generator: want %d got %d", size, len(c.body.Text))
+					}
+					c.Encoding, c.Framing = enc, vkit.Pick(rg, plainFramings)
+					if enc == "gzip" {
+						c.Framing = vkit.Pick(rg, c32GzipFramings)
+					}
+					run(c, rg)
 				}
-				if rg.Bool() {
-					c.Encoding, c.Framing = "plain", vkit.Pick(rg, plainFramings)
-				} else {
-					c.Encoding, c.Framing = "gzip", vkit.Pick(rg, c32GzipFramings)
-				}
-				run(c, rg)
 			}
 		}
 	}
